@@ -411,5 +411,15 @@ def run():
             raise TsError(f"{l} passes --output json to the command {c!r}, which the model does not know")
     out += [f"  (.{c}, {nm(l)}, {lean_ts(t)})" + ("," if i + 1 < len(exps) else "") + f"  -- {how}"
             for i, (c, l, t, how) in enumerate(exps)]
-    out += ["]", "", "end Gen", ""]
+    # what the VS Code wrapper does with `history` / `status` (the two consumer-side shapes that were wrong at the snapshot)
+    hist = [t for c, l, t, _ in exps if c == "history" and l.startswith("vscode.")]
+    unwraps = bool(hist) and all(t[0] == "obj" and [n for n, _, _ in t[1]] == ["entries"] for t in hist)
+    stat = decls.get("Status")
+    declares = bool(stat) and stat[0] == "obj" and "pending_plan" in [n for n, _, _ in stat[1]]
+    out += ["]", "",
+            "/-- cliService.history returns `JSON.parse(stdout).entries` (not the whole document) -/",
+            f"def vscodeHistoryUnwrapsEntries : Bool := {'true' if unwraps else 'false'}",
+            "/-- the wrapper's `Status` type declares the `pending_plan` member of StatusResult (not `current_plan?: Plan`) -/",
+            f"def vscodeStatusDeclaresPendingPlan : Bool := {'true' if declares else 'false'}",
+            "", "end Gen", ""]
     return [("Gen/Bindings.lean", common.write_if_changed(os.path.join(common.LEAN, "RModel/Gen/Bindings.lean"), "\n".join(out)))]
